@@ -148,7 +148,8 @@ class _Thr:
 class Scheduler:
     """One controlled execution."""
 
-    def __init__(self, prefix=(), bound=None, timeout_cost=1, max_points=20000, trace_files=()):
+    def __init__(self, prefix=(), bound=None, timeout_cost=1, max_points=20000, trace_files=(), lenient=False):
+        self.lenient = lenient        # replay of a schedule recorded on other code: clamp instead of diverging
         self.prefix = prefix          # [(index, fingerprint or None)]
         self.bound = bound            # None = unbounded (plain replay)
         self.timeout_cost = timeout_cost
@@ -279,7 +280,9 @@ class Scheduler:
             k = len(self.trace)
             if k < len(self.prefix):
                 idx, pfp = self.prefix[k]
-                if (pfp is not None and tuple(pfp) != fp) or not 0 <= idx < n:
+                if self.lenient:
+                    idx = max(0, min(idx, n - 1))
+                elif (pfp is not None and tuple(pfp) != fp) or not 0 <= idx < n:
                     raise SchedError("replay diverged at decision %d: recorded options %r index %d, now %r"
                                      % (k, pfp, idx, fp))
             c = costs[idx]
@@ -788,9 +791,9 @@ class Explorer:
         self.points = 0
         self.decisions = 0
 
-    def run_one(self, prefix=(), bound=None):
+    def run_one(self, prefix=(), bound=None, lenient=False):
         global _ACTIVE
-        s = Scheduler(prefix, bound, self.timeout_cost, self.max_points, self.trace_files)
+        s = Scheduler(prefix, bound, self.timeout_cost, self.max_points, self.trace_files, lenient)
         if _ACTIVE is not None:
             raise SchedError("nested controlled executions")
         _ACTIVE = s
@@ -853,16 +856,19 @@ class Explorer:
                 elif ex.cost == b or b == min_bound:
                     yield b, ex
 
-    def replay(self, choices):
-        """Re-run one schedule given as a list of indices (or (index, fingerprint) pairs)."""
+    def replay(self, choices, lenient=False):
+        """Re-run one schedule given as a list of indices (or (index, fingerprint) pairs).
+
+        lenient=True is for witnesses recorded on different code: indices are clamped to the options that
+        exist and a shorter execution is accepted (the nearest schedule), instead of raising SchedError."""
         prefix = []
         for c in choices:
             if isinstance(c, (tuple, list)):
                 prefix.append((int(c[0]), c[1]))
             else:
                 prefix.append((int(c), None))
-        ex = self.run_one(prefix, None)
-        if len(ex.trace) < len(prefix):
+        ex = self.run_one(prefix, None, lenient)
+        if len(ex.trace) < len(prefix) and not lenient:
             raise SchedError("replay diverged: execution ended after %d of %d recorded decisions"
                              % (len(ex.trace), len(prefix)))
         return ex
